@@ -45,3 +45,97 @@ def seg_energy(C, nc, seg, s, T, d):
             e = a + b - 2 * s + 1
             terms.append(Fraction(ff(a, s) * ff(b, s), e) * C.at(E.const(seg) * nc + a, d) * C.at(E.const(seg) * nc + b, d) * power(T, e))
     return esum(terms)
+
+
+# ---------------------------------------------------------------------------------------------------------------------
+# Hermite pieces from first principles.  For energy order s a segment has 2s coefficients fixed by the knot value and the
+# knot derivatives of order < s at both ends.  In normalised time tau = t/h the coefficients a_m are rational-linear in
+# the scaled data w = (h^k X0^k, h^k X1^k); the rational matrix is obtained by exact Gaussian elimination.
+# ---------------------------------------------------------------------------------------------------------------------
+def _solve(M, B):
+    """exact solve M X = B over Fractions; M n x n, B n x p"""
+    n = len(M)
+    A = [list(map(Fraction, M[i])) + list(map(Fraction, B[i])) for i in range(n)]
+    for c in range(n):
+        piv = next(r for r in range(c, n) if A[r][c] != 0)
+        A[c], A[piv] = A[piv], A[c]
+        pv = A[c][c]
+        A[c] = [x / pv for x in A[c]]
+        for r in range(n):
+            if r != c and A[r][c] != 0:
+                f = A[r][c]
+                A[r] = [x - f * y for x, y in zip(A[r], A[c])]
+    return [row[n:] for row in A]
+
+
+_HERMITE = {}
+
+
+def hermite_matrix(s):
+    """A[m][j]: a_m = sum_j A[m][j] w_j, w_j = h^k X0^k (j = k < s), h^k X1^k (j = s + k)"""
+    if s in _HERMITE:
+        return _HERMITE[s]
+    nc = 2 * s
+    fact = [1]
+    for k in range(1, nc + 1):
+        fact.append(fact[-1] * k)
+    A = [[Fraction(0)] * nc for _ in range(nc)]
+    for k in range(s):
+        A[k][k] = Fraction(1, fact[k])
+    M = [[Fraction(ff(m, k)) for m in range(s, nc)] for k in range(s)]
+    B = []
+    for k in range(s):
+        row = [Fraction(0)] * nc
+        row[s + k] = Fraction(1)
+        for m in range(k, s):
+            row[m] -= Fraction(ff(m, k), fact[m])
+        B.append(row)
+    X = _solve(M, B)
+    for r, m in enumerate(range(s, nc)):
+        A[m] = X[r]
+    _HERMITE[s] = A
+    return A
+
+
+def hermite_coeffs(s, iv_pow, X0, X1):
+    """coefficients c_m (m < 2s) of the Hermite piece, polynomial in h_inv:  c_m = sum_j A[m][j] * h_inv^(m-k(j)) * X_j
+    iv_pow(p) -> E for h_inv^p (p >= 0);  X0[k], X1[k]: knot derivatives of order k at the left / right end (k < s)"""
+    A = hermite_matrix(s)
+    nc = 2 * s
+    out = []
+    for m in range(nc):
+        terms = []
+        for j in range(nc):
+            if A[m][j] == 0:
+                continue
+            k = j if j < s else j - s
+            x = X0[k] if j < s else X1[k]
+            if m - k < 0:
+                raise ValueError('negative power in Hermite closure')
+            terms.append(A[m][j] * iv_pow(m - k) * x)
+        out.append(esum(terms))
+    return out
+
+
+def right_end_derivative(s, k, iv_pow, X0, X1):
+    """k-th derivative of the Hermite piece at its right end t = h, as a polynomial in h_inv (uses h * h_inv = 1 symbolically:
+    c_m h^(m-k) = sum_j A[m][j] h_inv^(k - k(j)) X_j  -- needs k >= k(j), true for k >= s-1 ... so restricted to k >= s)"""
+    A = hermite_matrix(s)
+    nc = 2 * s
+    terms = []
+    for m in range(k, nc):
+        for j in range(nc):
+            if A[m][j] == 0:
+                continue
+            kj = j if j < s else j - s
+            x = X0[kj] if j < s else X1[kj]
+            terms.append(Fraction(ff(m, k)) * A[m][j] * iv_pow(k - kj) * x)
+    return esum(terms)
+
+
+def left_end_derivative(s, k, iv_pow, X0, X1):
+    c = hermite_coeffs(s, iv_pow, X0, X1)
+    f = 1
+    for j in range(2, k + 1):
+        f *= j
+    return Fraction(f) * c[k]
